@@ -37,6 +37,11 @@ CLAIMED = {
    note="Trusted: ring layer over fr.Element; math/big.NewInt and Element.Exp interpreted (uninterpreted power); fft.Generator opaque (captured). Preconditions: non-empty vectors for Eval/Sum; GetCoeff for 0 <= shift <= 2^20. Not under contract: Lagrange-basis and bit-reversed evaluation, FFT-based conversions, ratios, quotient, expressions, serialisation, InterpolateOnRange, MultiLin.Evaluate/Eq. Two defects found and repaired (Evaluate ignored shifts outside 0..5; Add panicked on an empty destination).",
    technique="contract-based deductive verification: loop invariants with quantifiers and recursive SMT specification functions over symbolic coefficient arrays, identical-slice alias partitions, ghost capture of opaque callee arguments at call-site cut points",
    design="§10.4 C20"),
+ "C10": dict(
+   text="Partial. Deductive proof, for the 10 FFT packages (portable build), that each radix-2 butterfly kernel (innerDIF/DIT with and without a twiddle table) performs exactly the butterfly on every pair (a[i], a[i+m]) of the requested range with the prescribed twiddle (1 for i = 0, twiddles[i], or at*w^(i-start)), touches no other entry and never indexes out of range, and that precomputeExpTableChunk fills table[j] = w^power * w^j. The statement of the property itself (the composition of the stages, orderings, coset scaling, options and task split is the DFT and is inverted by FFTInverse) is NOT decided: it is the Cooley-Tukey induction over a goroutine-split recursion, outside what a function contract can carry here.",
+   note="Why claimed although partial: a change inside a kernel (the place where FFT arithmetic lives) fails a named obligation; everything above the kernels is listed under not_covered. Trusted: ring layer over the field element, Vector.Mul through its own contract, twseq axiomatised. Not under contract: unrolled and AVX-512 kernels, difFFT/ditFFT, FFT/FFTInverse, BitReverse, Domain construction and serialisation; amd64 default build of the table kernels (assembly Vector.Mul).",
+   technique="contract-based deductive verification: quantified loop invariants over symbolic arrays with slice-window frame facts, axiomatised recursive specification function, callee contracts of the field package applied at call sites",
+   design="§10.4 C10"),
  "C11": dict(
    text="Deductive proof, for the KZG packages of 7 pairing curves, that eval is Horner's value; dividePolyByXminusA returns the synthetic-division quotient (suffix Horner values) and leaves f(a) - fa in f[0]; Commit refuses exactly empty and oversized polynomials and otherwise returns the multi-exponentiation of the SRS prefix by p; Open returns ClaimedValue = p(point), leaves p unchanged and succeeds on constant polynomials; Verify returns nil only if the pairing check was made on (totalG1Aff, proof.H) with the key's lines and succeeded, totalG1 being built as [f(a)]G1 + [-a]H - commitment by exactly those calls on those operands; fold / FoldProof compute the inner product with the powers of the derived challenge, refuse mismatched and empty batches and keep H; BatchVerifySinglePoint accepts only if folding and verification accepted.",
    note="Trusted: ring layer over fr.Element; group elements and pairing lines opaque; MultiExp, JointScalarMultiplication, conversions, PairingCheckFixedQ and deriveGamma are opaque calls captured at the call site; the textbook identity f(X) - f(a) = q(X)(X - a) for the suffix-Horner quotient. Not under contract: completeness/soundness of the pairing equation (C05, C04), BatchVerifyMultiPoints, BatchOpenSinglePoint, SRS generation and MPC setup, serialisation; Verify performs no subgroup tests. Two defects found and repaired (Open on constant polynomials, FoldProof on an empty batch).",
@@ -84,7 +89,6 @@ NA = {
  "C04": "the property quantifies over goroutine schedules, channel joins and termination of the bucket method: a function-contract verifier for sequential code cannot state it (sub-obligations on bucket formulas are proved under C02)",
  "C05": "bilinearity and non-degeneracy of the optimal-ate pairing are theorems about divisors; no first-order contract on the Miller loop steps that z3/cvc5 can discharge implies them (tower arithmetic used by the pairing is proved under C06)",
  "C09": "assembly bodies cannot be lowered by go/ssa; the portable Go variants are proved against the same contracts under C01 (both build configurations) but no differential harness for the assembly paths was built, so the property is not claimed",
- "C10": "equality with the DFT needs the Cooley-Tukey induction over a goroutine-split recursion; a recursive specification mirroring the code would restate the algorithm, not the property",
  "C18": "purity/repeatability needs inferred frames for every exported entry point and a treatment of goroutines; only the modifies clauses of the functions under contract are checked (reported under the respective properties), which does not carry the property",
 }
 
